@@ -120,6 +120,13 @@ const CODE_LINES: &[&str] = &[
     "/* plain comment */",
     "bar(1, 2);",
     "baz",
+    // text that contains *parts* of common delimiters but never a whole one
+    "<!-- plain html comment -->",
+    "a --> b",
+    "x <!-- y",
+    "if (a > b) { /* < c */ }",
+    "// -- not a tag",
+    "{{ braces }} {{!",
 ];
 
 const WRAPPERS: &[(&str, &str)] = &[
@@ -167,6 +174,10 @@ impl Elem {
             v.push(attr("name", a));
         }
         v.push(format!("c={}e{}{}", q, self.id, q));
+        if self.style & 0x80 != 0 {
+            // an attribute the tool does not know, with blanks and an equals sign in its value
+            v.push(format!("owner={}team a=b{}", q, q));
+        }
         if self.unwrap.is_some() || self.unwrap_degenerate {
             v.push("unwrap-block".to_string());
         }
@@ -707,6 +718,9 @@ impl<'a, 'b> DocGen<'a, 'b> {
             self.rng.pick(INDENTS).to_string()
         };
         let mut style = self.rng.below(32) as u8;
+        if self.rng.chance(1, 10) {
+            style |= 0x80;
+        }
         let inline = self.p.allow_inline && self.rng.chance(1, 8);
         let unwrap = !inline && self.p.allow_unwrap && self.rng.chance(1, 3);
         if self.p.allow_multiline_tag && !inline && self.rng.chance(1, 10) {
